@@ -155,7 +155,7 @@ func (p *parker) handler(tag []any) rux.HandlerFunc {
 // buildShape builds a router whose global middleware slice has (glen, gcap) and whose routes' own middleware slices
 // have (mwlen, mwcap); returns false if Go's allocator did not produce the requested capacities.
 func buildShape(p *parker, glen, gcap, mwlen, mwcap int, opts ...func(*rux.Router)) (*rux.Router, bool) {
-	r := rux.New(opts...)
+	r := newRouter(opts...)
 	gh := make([]rux.HandlerFunc, glen)
 	for i := range gh {
 		gh[i] = p.handler([]any{"g", i + 1})
@@ -453,7 +453,7 @@ func serveStress(s *Summary, rng *rand.Rand, n int, out *traceWriter) {
 		cacheCap := -1
 		if t%2 == 0 {
 			cacheCap = (t / 2) % 3
-			opts = append(opts, rux.CachingWithNum(uint16(cacheCap)))
+			opts = append(opts, cachingOpts(cacheCap)...)
 		}
 		if rng.Intn(2) == 0 {
 			opts = append(opts, rux.HandleMethodNotAllowed)
